@@ -2,14 +2,14 @@ SPECIFICATION Spec
 CONSTANTS
   Readers = {1}
   Writers = {11, 12}
-  RIter = 1
-  WIter = 2
+  RIter = 2
+  WIter = 1
   Order <- MCOrder
-  Threshold = 2
+  Threshold = 1
   QCap = 2
-  EpochLate = FALSE
+  EpochLate = TRUE
   OneFlip = FALSE
-  NoEpochCheck = TRUE
+  NoEpochCheck = FALSE
   FreeRejected = FALSE
   MaxEpoch = 6
   defaultInitValue = 0
